@@ -51,6 +51,7 @@ type sseClientTransport struct {
 	closed       atomic.Bool   // Flag indicating if transport is closed.
 	retryConfig  *retry.Config // Retry configuration for requests.
 	endpointChan chan struct{} // Channel to signal when endpoint is received.
+	endpointOnce sync.Once     // endpointChan is closed at most once.
 	logger       Logger        // Logger for this client transport.
 
 	// Fields for HTTP request handler configuration
@@ -291,7 +292,8 @@ func (t *sseClientTransport) handleEndpointEvent(endpointURL string) {
 	}
 
 	t.endpoint = parsedURL
-	close(t.endpointChan) // Signal that the endpoint has been received.
+	// Signal that the endpoint has been received (a server may repeat the event: signal once).
+	t.endpointOnce.Do(func() { close(t.endpointChan) })
 }
 
 // handleMessageEvent processes message events from the server.
